@@ -47,7 +47,7 @@ func genC09(g *Gen) {
 			if g.R.Pct(15) {
 				cp.Reqs = append(cp.Reqs, g.Local(tok, "ping", RPong))
 			} else {
-				cp.Reqs = append(cp.Reqs, g.Single(tok, "get", Key(tok, 0, -1, sfx)))
+				cp.Reqs = append(cp.Reqs, g.Single(tok, "hget", Key(tok, 0, -1, sfx), "f")) // scripted reply: a bulk of the requested size
 			}
 		}
 		p.Clients = append(p.Clients, cp)
